@@ -657,9 +657,11 @@ class Context:
 
         def cbrt_fn(*args):
             x = to_number(args[0]) if args else float("nan")
-            if x < 0:
-                return -((-x) ** (1 / 3))
-            return x ** (1 / 3)
+            if not math.isfinite(x) or x == 0:
+                return x
+            r = abs(x) ** (1 / 3)
+            r -= (r - abs(x) / (r * r)) / 3  # Newton step: ** alone is tens of ulps off
+            return math.copysign(r, x)
 
         def log2_fn(*args):
             x = to_number(args[0]) if args else float("nan")
